@@ -62,11 +62,11 @@ def _verify_c(job):
             ob = obs[q]
             if ob.status == "discharged":
                 continue
-            if ob.status == "unknown" and not confirmed:
-                solve.discharge2(ob, tmo)
-            if ob.status == "discharged":
-                continue
             rec = {"goal": str(ob.goal)[:2000]}
+            recs[q] = rec
+            if ob.status == "unknown" and confirmed:
+                continue
+            # cheap first: a counter-model (the solver's, or of the finitely instantiated VC) replayed on the real code
             if n_replays < 4 and not confirmed:
                 n_replays += 1
                 _try_replay(ex, ob, rec)
@@ -75,7 +75,12 @@ def _verify_c(job):
                     if ob.status == "unknown":
                         ob.status = "failed"
                         ob.output += "; refuted by concrete replay"
-            recs[q] = rec
+                    continue
+            if ob.status == "unknown":
+                # no replayed refutation: spend the full solver budget (conjunct by conjunct, cvc5, portfolio)
+                solve.discharge2(ob, tmo if not rec.get("finst_sat") else min(tmo, 10))
+                if ob.status == "discharged":
+                    recs.pop(q, None)
         for nm in out["trivial"]:
             # contract clauses the generator's simplifier reduced to `true` (e.g. a store followed by a read)
             out["obligations"].append({"name": nm + "#simplified", "kind": "POST", "status": "discharged",
